@@ -153,4 +153,80 @@ def checkNew (env : Env) (table : List (String × Expr)) (factorComps : List Str
             blockRowOk groups (own.getD r none) (x.getD r []) (z.getD r [])),
           anyUnseen⟩
 
+/-! ### New frames made of training rows: the effect columns without asking the effect object
+
+For a new frame whose row `r` is row `src[r]` of the training frame (grouping values possibly replaced
+by labels never seen in training), "carries e's values there" can be judged without evaluating the
+effect again: e's values for a training row are what the *training* block carries in that row's own
+slot, and the effect columns of a term at prediction time are the training-time coding of the effect
+applied to the new rows.  So the block of the derived object must be `checkNew` with those rows as
+`x` — in particular it has the training width per slot. -/
+
+/-- the effect row the training block carries for each training row: the segment of the row's own
+slot (`p` = block width / number of groups) -/
+def trainEffectRows (env : Env) (table : List (String × Expr)) (factorComps : List String)
+    (trainGroups : List String) (zTrain : Matrix) : M Matrix := do
+  let vals ← factorComps.mapM (componentValues env table)
+  let n := env.frame.nrows
+  let g := trainGroups.length
+  let w := (zTrain.headD []).length
+  if g == 0 || w % g != 0 || zTrain.length != n then
+    .error (.unmodelled "training block: width is not a multiple of the number of groups")
+  else
+    let p := w / g
+    (List.range n).mapM (fun r =>
+      match cellLabel (vals.map (fun v => (v.getD r none))) with
+      | none => .error (.unmodelled "training row without a grouping cell")
+      | some l =>
+        match trainGroups.findIdx? (· == l) with
+        | none => .error (.unmodelled "training row whose cell is no group of the term")
+        | some i => pure (((zTrain.getD r []).drop (i * p)).take p))
+
+/-- `trainEnv` holds the training frame, `newEnv` the new frame whose row `r` is training row
+`src[r]` as far as the effect's variables go; `zTrain` / `zNew` are the term's blocks read from the
+training object and from the derived object. -/
+def checkNewFromTraining (trainEnv newEnv : Env) (table : List (String × Expr))
+    (factorComps : List String) (trainGroups : List String) (src : List Nat)
+    (zTrain zNew : Matrix) : M NewVerdict := do
+  let xt ← trainEffectRows trainEnv table factorComps trainGroups zTrain
+  if src.any (fun i => i ≥ xt.length) then .error (.unmodelled "source row outside the training frame")
+  else checkNew newEnv table factorComps trainGroups (src.map (fun i => xt.getD i [])) zNew
+
+/-- slots of a derived block: the training slots, one more iff some row's cell was not seen in
+training; every slot as wide as at training time -/
+def newWidthOk (trainGroups : List String) (trainWidth : Nat) (anyUnseen : Bool) (zNew : Matrix) : Bool :=
+  let g := trainGroups.length
+  g != 0 && trainWidth % g == 0 &&
+  zNew.all (fun row => row.length == (g + (if anyUnseen then 1 else 0)) * (trainWidth / g))
+
+/-! ### Labels: one per column, group-major like the block -/
+
+/-- the label of every group on the grouping side: `comp[level]` joined by `:`, in the order of
+`expectedGroups` -/
+def expectedFactorLabels (factorComps : List String) (levelLists : List (List Level)) : List String :=
+  match (factorComps.zip levelLists).map (fun (c, ls) => ls.map (fun l => c ++ "[" ++ l.label ++ "]")) with
+  | [] => []
+  | l :: ls => ls.foldl (fun acc x => acc.flatMap (fun a => x.map (fun b => a ++ ":" ++ b))) l
+
+/-- `labels` has one entry per column of the block (`width`), and the label of column `g·p + k` is
+`<label of effect column k>|<label of group g>` (the effect labels are read off the first slot) -/
+def labelsOk (factorLabels : List String) (labels : List String) (width : Nat) : Bool :=
+  let g := factorLabels.length
+  labels.length == width && g != 0 && width % g == 0 &&
+  (let p := width / g
+   let suffix0 := ("|" ++ factorLabels.headD "").toList
+   let prefixes : List (Option String) := (labels.take p).map (fun l =>
+     if suffix0.isSuffixOf l.toList then some (String.ofList (l.toList.take (l.length - suffix0.length)))
+     else none)
+   prefixes.all Option.isSome &&
+   (List.range g).all (fun gi => (List.range p).all (fun k =>
+     labels[gi * p + k]? == ((prefixes.getD k none).map (fun a => a ++ "|" ++ factorLabels.getD gi "")))))
+
+/-- labels of a group-specific term against the levels of its grouping components in `env`
+(the training frame) -/
+def checkLabels (env : Env) (table : List (String × Expr)) (factorComps : List String)
+    (labels : List String) (width : Nat) : M Bool := do
+  let levelLists ← factorComps.mapM (componentLevels env table)
+  pure (labelsOk (expectedFactorLabels factorComps levelLists) labels width)
+
 end FormulaeModel.Spec.C05
